@@ -91,6 +91,8 @@ func checkC05(c *Ctx) {
 			wcalls = append(wcalls, ci)
 		case "Flush":
 			fcalls = append(fcalls, ci)
+		case "Buffered", "Available", "Size":
+			// read-only queries; covered by the lock check above
 		default:
 			R.Unknown("C05-oneframe", "(*ResponseWriter).Write: bufio.Writer."+m, c.pos(ci), "unexpected bufio.Writer method in Write; frame emission is modelled as Write followed by Flush")
 		}
